@@ -137,7 +137,10 @@ def restart_walk(tid, h, w, b, seed, steps, rng):
     # (the last two usually do NOT meet the bounds: initial() has to repair them before handing anything out)
     rows = [[(y, x) for x in range(w)] for y in range(h)]
     whole = [[(y, x) for y in range(h) for x in range(w)]]
-    bld = mk_builder(h, w, b, unset=seed % 16, initial_blocks=[None, start, rows, whole][(seed // 3) % 4])
+    # ... / one block per cell (more blocks than any upper bound below h*w allows) / the columns
+    singles = [[(y, x)] for y in range(h) for x in range(w)]
+    cols = [[(y, x) for y in range(h)] for x in range(w)]
+    bld = mk_builder(h, w, b, unset=seed % 16, initial_blocks=[None, start, rows, whole, singles, cols][(seed // 3) % 6])
     try:
         for _ in range(max(2, steps // 4)):
             try:
